@@ -60,7 +60,9 @@ CLAIMS = {
                  "(modified) hat function (standard; modified n=3, n=4, n>=5), non-negative in the standard case; induction lemma: sum w_i f_i == integral of the piecewise-linear "
                  "interpolant; linear exactness; end-weight lemma for the modified basis. BOUNDED: Simpson/high-order/Lagrange/B-spline global rules on all refinement trees of depth<=4."),
     "C10": bounded("BOUNDED (deciding): hierarchise-then-interpolate is the identity on every grid, polynomial reproduction, derivatives/integrals of basis functions, for local and "
-                   "global Lagrange/B-spline grids on refinement trees. PROVED kernel: LagrangeBasis is 1 at its own knot and 0 at the others (2..4 symbolic distinct knots)."),
+                   "global Lagrange/B-spline grids on refinement trees. PROVED kernel: LagrangeBasis is 1 at its own knot and 0 at every other knot for ANY number of distinct knots, any index "
+                   "(loop invariants over the ghost product through the real constructor and __call__; induction lemmas prod-zero, prod-inverse), and additionally by loop-free "
+                   "unrolling for 2..4 knots."),
     "C11": bounded("BOUNDED (deciding, exhaustive over all dyadic trees of depth<=4, all slice groupings/versions/containers): weights sum to the interval length, linear exactness, "
                    "degree 2m+1 on complete grids, binary-tree completion. PROVED kernel: get_romberg_coefficient equals the Richardson constant for m<=3 independent of [a,b]; "
                    "the constants sum to 1 and cancel the error terms."),
